@@ -82,7 +82,12 @@ func runStorage(r Round) *outcome {
 	parent, cancel := context.WithCancel(context.Background())
 	defer cancel()
 	st := memory.New(parent)
-	defer func() { defer func() { recover() }(); st.Close() }()
+	defer func() {
+		defer func() { recover() }()
+		if !roundAborted {
+			st.Close()
+		}
+	}()
 	var mine counter
 	st.AddCleanHandler(func() error { mine.hit(); return nil })
 	for i := 0; i < r.p("keys"); i++ {
@@ -130,8 +135,7 @@ func runStorage(r Round) *outcome {
 		}
 	}
 	rc.release()
-	if ok, dump := rc.waitBlocked(10*time.Second, 40*time.Second); !ok {
-		o.failf("C16/memory-storage/close-did-not-return", "Close or a racing operation did not return within 10s"+"; goroutines inside the code under test:\n%s", dump)
+	if !rc.mustReturn(o, base, "Close or a racing storage operation / StartCleanup / StopCleanup") {
 		return o
 	}
 	rc.measure(o)
